@@ -98,7 +98,11 @@ class Builder:
         fb.setupNameTable({"familyName": "Third", "styleName": "Regular"})
         fb.setupOS2(sTypoAscender=ASC, sTypoDescender=DESC, sTypoLineGap=0, fsSelection=0x80)
         fb.setupPost()
-        pals = [self.palette] + [[(c[2], c[0], c[1], c[3]) for c in self.palette] for _ in range(self.n_palettes - 1)]
+        # further palettes: every entry takes the NEXT entry's colour (so that black, too, becomes something else) and keeps
+        # its own alpha
+        n = len(self.palette)
+        pals = [self.palette] + [[self.palette[(i + k) % n][:3] + (self.palette[i][3],) for i in range(n)]
+                                 for k in range(1, self.n_palettes)]
         fb.setupCPAL(pals)
         if version == 0:
             fb.setupCOLR({g: layers for g, layers in self.colr.items()}, version=0)
